@@ -131,7 +131,7 @@ def shape_chain(item, ob):
             okk = (stree == tree and tuple(sorder) == tuple(order))
             def replay(model, stree=stree):
                 # surface program: operators o1..oK with assigned precedences; chain relation cannot be set from the surface, so only chain-free models are replayed
-                if any(mval(model, chain_var(a, b)) for a in [tuple(range(i, j)) for i in range(K) for j in range(i + 1, K + 1)] for b in range(K) if b == a[-1] + 1): return None
+                if any(d.name().startswith('chain_') and z3.is_true(model[d]) for d in model.decls()): return None
                 defs = ''.join(f'o{i + 1} := \\a, b -> [{i + 1}, a, b]; o{i + 1}::precedence = {lit_prec(model, i)}; ' for i in range(K))
                 if any(a == 'Right' for a in assocs): return None      # associativity of user functions is fixed Left from the surface
                 expr = ' '.join(['0'] + [f'o{i + 1} {i + 1}' for i in range(K)])
